@@ -822,6 +822,102 @@ theorem main_module_counterexample :
         = .hidden := by decide
 
 
+/-! ### rule lists that come from the command line
+
+Since "fix: reject a --privacy pattern that does not translate to a valid regular expression when
+parsing the option", `parse_privacy_tuple` compiles the pattern and refuses it with the usual
+option error: a backwards range can no longer reach `System.privacyClass` from `--privacy`.
+(`qnmatch.qnmatch` called directly still raises: `Glob.qnmatch_counterexample`,
+`precedence_counterexample` above are about rule lists put into `options.privacy` by hand.) -/
+
+/-- a value that passes `parse_privacy_tuple` carries a pattern `re` accepts -/
+theorem parseRule_wellFormed (v : List Char) (r : Rule) (h : parseRule v = .ok r) :
+    Glob.wellFormed r.pat = true := by
+  simp only [parseRule] at h
+  split at h
+  · split at h
+    · cases h
+    · split at h
+      · cases h
+      · rename_i as ht
+        split at h
+        · rename_i hc
+          simp only [Parsed.ok.injEq] at h
+          subst h
+          rw [← Glob.compiles_iff]
+          simp [Glob.compilesPat, ht, hc]
+        · cases h
+  · cases h
+
+/-- every rule of a list that `_convert_privacy` lets through is well formed -/
+theorem cli_rules_wellFormed : ∀ (vs : List (List Char)) (rules : List Rule),
+    parseRules vs = .ok rules → ∀ r ∈ rules, Glob.wellFormed r.pat = true
+  | [], rules, h => by
+    simp only [parseRules, Parsed.ok.injEq] at h
+    subst h; simp
+  | v :: vs, rules, h => by
+    simp only [parseRules] at h
+    cases hv : parseRule v with
+    | systemExit => simp [hv] at h
+    | indexError => simp [hv] at h
+    | ok r =>
+      simp only [hv] at h
+      cases hvs : parseRules vs with
+      | systemExit => simp [hvs] at h
+      | indexError => simp [hvs] at h
+      | ok rs =>
+        simp only [hvs, Parsed.ok.injEq] at h
+        subst h
+        intro x hx
+        rcases List.mem_cons.mp hx with rfl | hx
+        · exact parseRule_wellFormed v x hv
+        · exact cli_rules_wellFormed vs rs hvs x hx
+
+/-
+Full statement, still false of the current code (open finding `main-module:*`):
+    parseRules vs = .ok rules → ob.kindNone = false →
+      (privacyClass rules [] ob).1 = .ok (specLevel rules ob)
+-/
+/-- **Precedence for every `--privacy` list the option parser accepts**: no hypothesis on the
+patterns any more; only modules named `__main__` stay excluded. -/
+theorem precedence_cli_partial (vs : List (List Char)) (rules : List Rule) (ob : Obj)
+    (h : parseRules vs = .ok rules)
+    (hmain : (ob.isModule && ob.name = mainName) = false) (hk : ob.kindNone = false) :
+    (privacyClass rules [] ob).1 = .ok (specLevel rules ob) :=
+  precedence_partial rules ob (cli_rules_wellFormed vs rules h) hmain hk
+
+/-- **With a `--privacy` list the option parser accepts, `privacyClass` never raises** — for any
+object and any cache state (the `re.error` of the former finding is unreachable from the CLI). -/
+theorem cli_never_raises (vs : List (List Char)) (rules : List Rule) (h : parseRules vs = .ok rules)
+    (c : Cache) (ob : Obj) : ∃ l, (privacyClass rules c ob).1 = .ok l := by
+  have hw : ∀ x ∈ rules.reverse, Glob.wellFormed x.pat = true :=
+    fun x hx => cli_rules_wellFormed vs rules h x (List.mem_reverse.mp hx)
+  simp only [privacyClass]
+  split
+  · exact ⟨_, rfl⟩
+  · simp only [systemPrivacyClass]
+    split
+    · exact ⟨_, rfl⟩
+    · split
+      · exact ⟨_, rfl⟩
+      · have hd : ∃ l, decide rules ob = .ok l := by
+          simp only [decide, findPattern_eq _ _ hw]
+          cases findExact rules.reverse ob.fullName with
+          | some l => exact ⟨l, rfl⟩
+          | none =>
+            cases (rules.reverse.filter (fun r => Glob.spec r.pat ob.fullName)).head? with
+            | some r => exact ⟨r.level, rfl⟩
+            | none => exact ⟨_, rfl⟩
+        obtain ⟨l, hl⟩ := hd
+        exact ⟨l, by simp [hl]⟩
+
+example : parseRules [['H', 'I', 'D', 'D', 'E', 'N', ':', 'm', '.', '[', 'a', '-', 'b', ']', '*']]
+    = .ok [⟨.hidden, ['m', '.', '[', 'a', '-', 'b', ']', '*']⟩] := by decide
+/-- `--privacy=HIDDEN:m.[b-a]*` is refused when the option is parsed -/
+theorem cli_rejects_backwards_range :
+    parseRules [['H', 'I', 'D', 'D', 'E', 'N', ':', 'm', '.', '[', 'b', '-', 'a', ']', '*']]
+      = .systemExit := by decide
+
 /-! ### the cache -/
 
 theorem lookup_append (c : Cache) (k fn : List Char) (l : Level) :
